@@ -100,9 +100,8 @@ def grid_oracle(chk, grids, info):
                         if xp is not None:
                             ok[a, b] = False
                             # the exemption is for corners AT an X-point of the flux surface of that radial index: the X-point must be on it
-                            # (1e-4: with the dct interpolation psi at the X-point found on the spline differs from the separatrix value
-                            #  by 1.3e-5 of the scale; a pin to the X-point of ANOTHER separatrix is off by the gap between them)
-                            if abs(ev[a, b] - want[a, 0]) > 1e-4 * scale:
+                            # (on the dct member this test saw 1.3e-5: finding F30, psi_sep taken from another interpolant -- repaired)
+                            if abs(ev[a, b] - want[a, 0]) > 1e-6 * scale:
                                 chk.fail("pinned-corner:xpoint-not-on-this-surface", "a corner is pinned to an X-point that does not lie on the flux surface of the corner's radial index",
                                          {"grid": g.name, "region": r["name"], "corner": [a, b], "psi_at_xpoint": float(ev[a, b]), "psi_of_radial_index": float(want[a, 0]), "xpoint": list(xp)})
                             if abs(A["Rxy"]["corners"][a, b] - xp[0]) > 0 or abs(A["Zxy"]["corners"][a, b] - xp[1]) > 0:
@@ -333,7 +332,7 @@ def pin_oracle(chk):
                         continue
                     n += 1
                     npins += 1
-                    if k >= len(r["boundaries"]) or abs(p["psi"] - r["boundaries"][k]) > 1e-4 * r["scale"]:
+                    if k >= len(r["boundaries"]) or abs(p["psi"] - r["boundaries"][k]) > 1e-6 * r["scale"]:
                         chk.fail("pinned-corner:xpoint-not-on-this-surface", "a region pins the corners of a radial boundary to an X-point that does not lie on the flux surface of that boundary",
                                  {"equilibrium": eqd["name"], "double_null_type": eqd["double_null_type"], "region": r["name"], "end": end, "radial_boundary": k,
                                   "psi_at_xpoint": p["psi"], "psi_of_boundary": r["boundaries"][k] if k < len(r["boundaries"]) else None, "xpoint": [p["R"], p["Z"]]})
@@ -374,6 +373,8 @@ def run(chk):
     nr += pin_oracle(chk)
     # an upper disconnected double null whose inboard and outboard SOL limits differ (C01 only): the SOL segments of inner and outer regions have different psi grids
     extra = [corpus.tok("udn_solin", "udn", corpus.DN, options=dict(psinorm_sol_inner=1.1), must_build=True)]
+    if chk.tier == "quick":      # both interpolation methods in the quick tier too
+        extra.append(dict(corpus.CONFIGS["lsn_dct"], must_build=True))
     grids = corpus.get(tier=chk.tier, extra_cfgs=extra)
     n = grid_oracle(chk, grids, info)
     chk.count(evaluations=len(cases) + n + nr, distinct=nf + n + nr)
